@@ -1,5 +1,5 @@
 """C06 / C07 — page pixel operations and native layout: guard orderings (A2), formula canon (A7), byte sequences (A3), who-writes (A5), in-bounds panic freedom (A4)."""
-from mireval import Evaluator, Unsupported, fmt_term, mk_int
+from mireval import Evaluator, Unsupported, fmt_term, mk_int, int_bits
 from models import Models
 from facts import loc
 from p_msgmap import norm, norm_cons
@@ -268,7 +268,10 @@ def run_c06(chk, prog):
                 old = ("proj", e[1], e[2][0])
                 newv = e[3]
                 ok, why = set_shape(newv, old, y, val)
-                chk.ob("C06.O3", "set_pixel(%s) stores %s" % ("true" if val else "false", "byte | mask" if val else "byte & !mask"), ok, key="page:set:%s" % ("or" if val else "andnot"), where=where, detail=why)
+                if val is None:
+                    chk.ob("C06.O3", "set_pixel stores byte | mask for true and byte & !mask for false", ok, key="page:set:both", where=where, detail=why)
+                else:
+                    chk.ob("C06.O3", "set_pixel(%s) stores %s" % ("true" if val else "false", "byte | mask" if val else "byte & !mask"), ok, key="page:set:%s" % ("or" if val else "andnot"), where=where, detail=why)
     # ---- O4 set_all_pixels ---------------------------------------------------------------
     fn = cx.fn["set_all_pixels"]
     where = loc(fn["span"])
@@ -277,12 +280,34 @@ def run_c06(chk, prog):
     ww = ("proj", sel, ("field", cx.iw, "u32"))
     hh = ("proj", sel, ("field", cx.ih, "u32"))
     seen_vals = {}
+
+    def loop_store(e):
+        """(slice, value) if the store event writes `value` to the current item of a loop over the elements of `slice`"""
+        tgt = e[1]
+        if e[2] == () and tgt[0] == "proj" and tgt[2] == ("deref",) and tgt[1][0] == "item" and tgt[1][1][0] == "iter" and tgt[1][1][1] in ("slice", "slice_mut"):
+            return (tgt[1][1][2], e[3])
+        return None
+    # an explicit `for byte in &mut bytes[a..b] { *byte = v }`: every iteration stores (the loop's back edge carries a store to the
+    # current item) and the loop is left only when the iterator is exhausted, so it is the fill of [a, b) with v
+    loopbacks = [p for p in paths if p.kind == "loopback"]
+    every_iteration_stores = bool(loopbacks) and all(
+        any(loop_store(e) for e in p.trace[max([i for i, x in enumerate(p.trace) if x[0] == "widen"] or [0]):] if e[0] == "store") for p in loopbacks)
     for p in paths:
+        if p.kind == "loopback":
+            continue
         if p.kind != "return":
             chk.ob("C06.O4", "set_all_pixels has no panicking path besides the discharged range check", False, key="page:setall:panic", where=where, detail=str(p.info))
             continue
         fills = [e for e in p.trace if e[0] == "fill"]
         stores = [e for e in p.trace if e[0] == "store"]
+        hn = [(t, v) for (t, v, w) in p.decisions if t[0] == "app" and t[1] == "has_next"]
+        if not fills and every_iteration_stores and hn and hn[-1][1] == 0 and all(v == 1 for _, v in hn[:-1]):
+            ls = [loop_store(e) for e in stores]
+            if all(x is not None for x in ls) and len(set(ls)) <= 1:
+                if not ls:
+                    continue        # the range was empty: nothing to write
+                fills = [("fill", ls[0][0], ls[0][1], stores[0][4] if len(stores[0]) > 4 else None)]
+                stores = []
         chk.ob("C06.O4", "set_all_pixels' only write is one slice fill", len(fills) == 1 and not stores, key="page:setall:writes", where=where)
         if len(fills) != 1:
             continue
@@ -357,7 +382,122 @@ def is_mask(t, y):
     return False
 
 
+class NotBitExpr(Exception):
+    pass
+
+
+def bit_eval(t, env):
+    """value of a closed bit-vector expression under an assignment of its leaves (a truth-table evaluator: the expression is
+    compared with the specification on its whole finite domain, nothing of flipdot is executed)"""
+    t0 = norm(t)
+    if t0 in env:
+        return env[t0]
+    k = t[0]
+    if k == "int":
+        return t[1]
+    if k == "app":
+        op, args = t[1], t[2]
+        if op.startswith("cast:"):
+            x = bit_eval(args[0], env)
+            bits = {"bool": 1}.get(op[5:]) or int_bits(op[5:])[0]
+            if not bits:
+                raise NotBitExpr(op)
+            return x & ((1 << bits) - 1)
+        if op == "Not":
+            x = bit_eval(args[0], env)
+            ty = a7.infer_type(args[0]) or "u8"
+            if ty == "bool":
+                return 1 - (x & 1)
+            bits = int_bits(ty)[0] or 8
+            return (~x) & ((1 << bits) - 1)
+        if len(args) == 2:
+            a, b = bit_eval(args[0], env), bit_eval(args[1], env)
+            ty = a7.infer_type(args[0]) or a7.infer_type(args[1]) or "u8"
+            bits = int_bits(ty)[0] or 64
+            m = (1 << bits) - 1
+            if op == "BitAnd":
+                return a & b
+            if op == "BitOr":
+                return a | b
+            if op == "BitXor":
+                return a ^ b
+            if op == "Shl":
+                if b >= bits:
+                    raise NotBitExpr("shift overflow")
+                return (a << b) & m
+            if op == "Shr":
+                if b >= bits:
+                    raise NotBitExpr("shift overflow")
+                return a >> b
+            if op == "Rem" and b:
+                return a % b
+            if op == "Div" and b:
+                return a // b
+            if op in ("Mul", "wrapping_mul"):
+                return (a * b) & m
+            if op in ("Add", "wrapping_add"):
+                return (a + b) & m
+            if op in ("Sub", "wrapping_sub"):
+                return (a - b) & m
+            if op == "Eq":
+                return int(a == b)
+            if op == "Ne":
+                return int(a != b)
+            if op == "Gt":
+                return int(a > b)
+            if op == "Lt":
+                return int(a < b)
+    raise NotBitExpr(fmt_term(t)[:60])
+
+
+def bit_table_ok(expr, byte, y, value, spec):
+    """expr == spec(B, k, v) for every old byte B, every bit position k = y mod 8 (several y per k) and both values of `value`"""
+    vsym = norm(("sym", "value", "bool"))
+    for k in range(8):
+        for yv in (k, k + 8, k + 8 * 37):
+            for B in range(256):
+                for v in ((0, 1) if value is None else (int(bool(value)),)):
+                    env = {norm(y): yv, vsym: v}
+                    if byte is not None:
+                        env[norm(byte)] = B
+                    try:
+                        got = bit_eval(expr, env)
+                    except NotBitExpr as e:
+                        return False, "not a bit expression over (byte, y, value): %s" % e
+                    if got != spec(B, k, v):
+                        return False, "differs from the specification for byte=0x%02X, y=%d, value=%d" % (B, yv, v)
+    return True, None
+
+
+def find_byte(t, cx, sel):
+    """the element of self.bytes an expression reads (None if it reads none or more than one)"""
+    want = norm(("app", "cow_slice", (("proj", sel, ("field", cx.ib)),)))
+    found = set()
+
+    def walk(x):
+        if isinstance(x, tuple):
+            if x and x[0] == "proj" and len(x) == 3 and isinstance(x[2], tuple) and x[2] and x[2][0] == "index" and norm(x[1]) == want:
+                found.add(x)
+                return
+            for c in x:
+                walk(c)
+    walk(t)
+    return next(iter(found)) if len(found) == 1 else None
+
+
 def get_shape(v, cx, sel, y):
+    ok, why = get_shape_syntactic(v, cx, sel, y)
+    if ok:
+        return ok, why
+    # any other spelling of the same bit test: compare truth tables
+    byte = find_byte(v, cx, sel)
+    if byte is None:
+        return False, why
+    ok2, why2 = bit_table_ok(v, byte, y, 0, lambda B, k, _v: (B >> k) & 1)
+    return ok2, (None if ok2 else "%s; %s" % (why, why2))
+
+
+def get_shape_syntactic(v, cx, sel, y):
     if not (v[0] == "app" and v[1] in ("Eq", "Ne") and len(v[2]) == 2):
         return False, "result is not a comparison: %s" % fmt_term(v)[:80]
     a, b = v[2]
@@ -380,6 +520,14 @@ def get_shape(v, cx, sel, y):
 
 
 def set_shape(newv, old, y, val):
+    ok, why = set_shape_syntactic(newv, old, y, val)
+    if ok:
+        return ok, why
+    ok2, why2 = bit_table_ok(newv, old, y, val, lambda B, k, v: (B | (1 << k)) if v else (B & ~(1 << k) & 0xFF))
+    return ok2, (None if ok2 else "%s; %s" % (why, why2))
+
+
+def set_shape_syntactic(newv, old, y, val):
     if val is None:
         return False, "the stored value does not depend on `value` through one test"
     if val:
